@@ -5,10 +5,10 @@ from imports import imported
 
 PROPERTY = "C09"
 LEVEL = "proof"
-EXPLANATION = ("Proof of the operand-selection rules of the SuperscalarHash generator on the real selectDestination / selectSource / selectRegister (ready at the cycle, distinct from the source unless allowed, no chained multiplication unless permitted, not the same group and parameter twice, r5 never the destination of IADD_RS and forced as source when it is one of two candidates) with their frame, of DecoderBuffer::fetchNext (decode-group choice of 6.3.1), of createForSlot (instruction types per slot size, Table 6.3.2), of scheduleUop (first free compatible port in the order P5, P0, P1, for every port map: loop contract), of SuperscalarInstruction::create (rotation counts 1..63, reciprocal divisors neither zero nor a power of two, zero immediates / mod bytes where the table has none, operation groups), and of the SuperscalarHash interpreter executeSuperscalar (each instruction kind computes what Table 6.1.1 prescribes for all register values; memory safety, frame and termination for every program of well-formed instructions, loop contract), and of the control skeleton of generateSuperscalar with all callees as range-only stand-ins: at most 3*170+2 instructions are emitted and all inside the program buffer, no instruction is created after a macro-op was scheduled at a cycle >= 170 (the termination rule of 6.3), both loops terminate. The scheduler, decoder-buffer choice, termination and the equality of the generated programs with the specification's generator are not decided.")
+EXPLANATION = ("Proof of the operand-selection rules of the SuperscalarHash generator on the real selectDestination / selectSource / selectRegister (ready at the cycle, distinct from the source unless allowed, no chained multiplication unless permitted, not the same group and parameter twice, r5 never the destination of IADD_RS and forced as source when it is one of two candidates) with their frame, of DecoderBuffer::fetchNext (decode-group choice of 6.3.1), of createForSlot (instruction types per slot size, Table 6.3.2), of scheduleUop (first free compatible port in the order P5, P0, P1, for every port map: loop contract) and scheduleMop (first cycle at which all micro-ops of the macro-op can execute; a query leaves the map unchanged), of SuperscalarInstruction::create (rotation counts 1..63, reciprocal divisors neither zero nor a power of two, zero immediates / mod bytes where the table has none, operation groups), and of the SuperscalarHash interpreter executeSuperscalar (each instruction kind computes what Table 6.1.1 prescribes for all register values; memory safety, frame and termination for every program of well-formed instructions, loop contract), and of the control skeleton of generateSuperscalar with all callees as range-only stand-ins: at most 3*170+2 instructions are emitted and all inside the program buffer, no instruction is created after a macro-op was scheduled at a cycle >= 170 (the termination rule of 6.3), both loops terminate. The scheduler, decoder-buffer choice, termination and the equality of the generated programs with the specification's generator are not decided.")
 TRUSTED = ['the six decode-group objects and the slot candidate tables are re-stated in harness_ss_fetch.c / harness_ss_slot.c (C++ constructors are dropped by the extraction); the extraction checks on every run that the source text still initialises them as in Table 6.3.1 (source_must_match), a change there is reported as undecided', 'mulh / smulh / rotr / randomx_reciprocal stand-ins with contracts (their bodies: C17, C18); the three in-line 64-bit products of executeSuperscalar are rewritten to RXV_MUL64 by the extraction (uninterpreted in the step obligation)', 'stand-ins with contracts: instruction-type query (info_->getType()) and generator draw (Blake2Generator::getUInt32)', 'std::vector<int> of candidate registers is a fixed-capacity (8) list stand-in; exceeding the capacity is an assertion failure']
 ASSUMPTIONS = []
-NOT_DECIDED = ['what the remaining generator stand-ins compute: scheduleMop (pairing of the two micro-ops of a macro-op; its building block scheduleUop is decided), macro-op tables (SuperscalarInstructionInfo)', 'termination of the two rejection loops in create (probabilistic)', "equality of the eight generated programs with the specification's generator for every key", 'generateSuperscalarCode (native code) vs executeSuperscalar equivalence', 'address-register choice (longest dependency chain)']
+NOT_DECIDED = ['what the remaining generator stand-ins compute: macro-op tables (SuperscalarInstructionInfo)', 'termination of the two rejection loops in create (probabilistic)', "equality of the eight generated programs with the specification's generator for every key", 'generateSuperscalarCode (native code) vs executeSuperscalar equivalence', 'address-register choice (longest dependency chain)']
 INC = ["@suites/common"]
 
 
@@ -66,5 +66,13 @@ OBLIGATIONS = [
      "defines": ['RXV_CONTRACTS_H="contracts_ss_uop.h"', "RXV_COMMIT=%d" % c], "entry": "h_uop", "enforce": "scheduleUop", "replace": [], "loop_contracts": True, "unwind": 180,
      "checks": ["--bounds-check", "--pointer-check", "--div-by-zero-check", "--undefined-shift-check", "--signed-overflow-check"],
      "expect_classes": ["postcondition", "loop_invariant_step"], "expect_min": 6, "timeout": 900}
+    for c in (0, 1)
+] + [
+    {"name": "schedule_mop_first_cycle_all_uops_can_execute_commit%d" % c, "incdirs": INC,
+     "files": [{"cxx": XS.SS_SCHEDULE_MOP, "out": "sm.c", "header": True,
+                "loops": [{"function": "scheduleMop", "expect_loops": 1, "loops": {"0": "RXV_MOP_LOOP_INVARIANT"}}]}, "harness_ss_mop.c"],
+     "defines": ['RXV_CONTRACTS_H="contracts_ss_mop.h"', "RXV_COMMIT=%d" % c], "entry": "h_mop", "enforce": "scheduleMop", "replace": [], "loop_contracts": True,
+     "checks": ["--bounds-check", "--pointer-check", "--div-by-zero-check", "--undefined-shift-check", "--signed-overflow-check"],
+     "expect_classes": ["postcondition", "loop_invariant_step"], "expect_min": 4, "timeout": 900}
     for c in (0, 1)
 ]
